@@ -54,6 +54,19 @@ LastOf(s)  == s[Len(s)]
 FrontOf(s) == SubSeq(s, 1, Len(s) - 1)
 
 -----------------------------------------------------------------------------
+\* refinement mapping
+EntryAt(n, i) == {j \in 1..Len(stack[n]) : stack[n][j].ci = i}
+AbsVar(n, i)  == IF EntryAt(n, i) = {} THEN Absent
+                 ELSE stack[n][CHOOSE j \in EntryAt(n, i) : TRUE].var
+Abs == [k \in 1..Len(contexts) |->
+          [kind |-> contexts[k].kind,
+           vars |-> [n \in Names |-> AbsVar(n, k - 1)],
+           pos  |-> IF contexts[k].kind = "R" THEN contexts[k].pos ELSE <<>>]]
+
+\* the documented model, instantiated on the mapped state
+Ref == INSTANCE VarRef WITH ctx <- Abs
+
+-----------------------------------------------------------------------------
 \* accessors, as the code computes them
 
 \* index_of_topmost_regular_context (0-based)
@@ -78,30 +91,18 @@ GetScopedC(n, s) ==
 IterC(s) ==
   LET in == SelectSeq(NameSeq, LAMBDA n : present[n] /\ stack[n] # <<>>
                                            /\ LastOf(stack[n]).ci >= IndexOfContext(s))
-  IN [i \in 1..Len(in) |-> [n |-> in[i], var |-> LastOf(stack[in[i]]).var]]
+  IN [i \in 1..Len(in) |-> in[i] \o ":" \o Ref!VarStr(LastOf(stack[in[i]]).var)]
 
 \* env_c_strings: last element exported and having a value
 EnvC ==
   LET in == SelectSeq(NameSeq, LAMBDA n : present[n] /\ stack[n] # <<>>
                                            /\ LastOf(stack[n]).var.ex /\ LastOf(stack[n]).var.hv)
-  IN [i \in 1..Len(in) |-> [n |-> in[i], val |-> LastOf(stack[in[i]]).var.val]]
+  IN [i \in 1..Len(in) |-> in[i] \o "=" \o LastOf(stack[in[i]]).var.val]
 
 \* positional_params: contexts.iter().rev().find_map(Regular)
 PosC == contexts[TopRegIdx + 1].pos
 
 -----------------------------------------------------------------------------
-\* refinement mapping
-EntryAt(n, i) == {j \in 1..Len(stack[n]) : stack[n][j].ci = i}
-AbsVar(n, i)  == IF EntryAt(n, i) = {} THEN Absent
-                 ELSE stack[n][CHOOSE j \in EntryAt(n, i) : TRUE].var
-Abs == [k \in 1..Len(contexts) |->
-          [kind |-> contexts[k].kind,
-           vars |-> [n \in Names |-> AbsVar(n, k - 1)],
-           pos  |-> IF contexts[k].kind = "R" THEN contexts[k].pos ELSE <<>>]]
-
-\* the documented model, instantiated on the mapped state
-Ref == INSTANCE VarRef WITH ctx <- Abs
-
 \* representation invariant (VariableSet::assert_normalized)
 Normalized ==
   \A n \in Names :
